@@ -18,7 +18,7 @@ ErrIdx(e) == CHOOSE i \in 1..5 : ErrSeq[i] = e
 B2N(b) == IF b THEN 1 ELSE 0
 ShardOf(c) == (c.min + 3 * c.max + 7 * c.tol + 11 * B2N(c.cfe) + 13 * ErrIdx(c.errors)
                + 17 * B2N(c.failures = "raise") + 19 * (c.t + c.L) + 23 * (c.offset + 5)
-               + 37 * c.c0[1]) % NShards
+               + 37 * (IF Len(c.c0) = 0 THEN 3 ELSE c.c0[1])) % NShards
 Sharded(C) == {c \in C : ShardOf(c) = Shard}
 
 Mk(mins, maxs, tols, fails, errs, cfes, Ls, offs, c0s, srcs) ==
@@ -51,6 +51,12 @@ HookCfgs == { c \in Mk(0..2, 0..MaxI, {1}, {"ignore"}, {"raise", "skip", "replac
                        {<<0>>}, {<<0>>}) : c.t = 1 }
 HookOutsEq == {S(0), S(1), S(NaN)}
 HookCfgsS == Sharded(HookCfgs)
+
+(* S-empty: a model whose list of check variables is empty (every pass is trivially "below") *)
+EmptyCfgs == { c \in Mk(0..3, 0..MaxI, {0, 1}, {"raise", "ignore"}, {"raise", "skip", "replace"}, {TRUE}, {3}, {0, 1},
+                        {<<>>}, {<<>>}) : c.t = 1 }
+EmptyOuts == {S(0)}
+EmptyCfgsS == Sharded(EmptyCfgs)
 
 (* S-long: simulation over a wide product *)
 LongCfgs == { c \in Mk(0..(MaxI + 1), 0..MaxI, {0, 1, 2, 3}, {"raise", "ignore"},
